@@ -385,6 +385,46 @@ pub fn install_panic_hook() {
         } else {
             "<non-string panic payload>".to_string()
         };
+        // The function the panic came from: first frame of an rssl crate in the backtrace. Unlike a
+        // line number it survives unrelated edits to the file, and unlike the bare message it
+        // tells two `unwrap()`s in one file apart.
+        let bt = std::backtrace::Backtrace::force_capture().to_string();
+        let mut func = String::from("?");
+        if std::env::var("RSSL_SIM_BT").is_ok() {
+            eprintln!("{bt}");
+        }
+        // Frames come as "N: name" followed by "at path:line:col" (line tables are enabled in the
+        // build profile so that inlined functions appear under their own names)
+        let lines: Vec<&str> = bt.lines().collect();
+        let mut found: Vec<String> = Vec::new();
+        for w in lines.windows(2) {
+            let (sym_line, at_line) = (w[0].trim(), w[1].trim());
+            let Some(path) = at_line.strip_prefix("at ") else {
+                continue;
+            };
+            let Some((_, sym)) = sym_line.split_once(": ") else {
+                continue;
+            };
+            if path.starts_with("/rustc/") || path.starts_with("./") || !path.contains("/src/") {
+                continue;
+            }
+            let rel = repo_relative(path.split(':').next().unwrap_or(path));
+            if rel.starts_with('/') {
+                continue;
+            }
+            let name = sym.split('<').next().unwrap_or(sym).trim();
+            if name.starts_with('{') || name.is_empty() {
+                continue;
+            }
+            found.push(name.to_string());
+            if found.len() == 2 {
+                break;
+            }
+        }
+        if !found.is_empty() {
+            func = found.join(" < ");
+        }
+        let msg = format!("{msg}\u{1}{func}");
         LAST_PANIC.with(|p| *p.borrow_mut() = Some((file, line, msg)));
     }));
 }
@@ -611,11 +651,15 @@ fn run_task(task: &TaskSpec, fss: &[FsSpec], yield_hook: Option<&dyn Fn()>) -> T
                 .with(|p| p.borrow_mut().take())
                 .unwrap_or(("<unknown>".into(), 0, "<no message>".into()));
             let file = repo_relative(&file);
+            let (msg, func) = match msg.split_once('\u{1}') {
+                Some((m, f)) => (m.to_string(), f.to_string()),
+                None => (msg, "?".to_string()),
+            };
             TaskResult {
                 kind: OutcomeKind::Panic,
-                text: format!("Panic {file}: {msg}"),
+                text: format!("Panic {file} in {func}: {msg}"),
                 aux: String::new(),
-                panic_site: format!("{file}::{}", msg_prefix(&msg)),
+                panic_site: format!("{file} {func}: {}", msg_prefix(&msg)),
                 panic_line: line,
                 events,
                 allocs,
@@ -628,28 +672,29 @@ fn run_task(task: &TaskSpec, fss: &[FsSpec], yield_hook: Option<&dyn Fn()>) -> T
     }
 }
 
-/// The stable part of a panic message: up to the first character that usually starts payload data
+/// The stable part of a panic message: its first line up to the first ": " (what follows is
+/// usually payload data), digit runs replaced by '#', at most 80 characters
 pub fn msg_prefix(msg: &str) -> String {
-    let cut = msg
-        .char_indices()
-        .find(|(_, c)| matches!(c, ':' | '`' | '\n' | '(' | '\'' | '"'))
-        .map(|(i, _)| i)
-        .unwrap_or(msg.len());
-    let cut = cut.min(60);
-    let mut end = cut;
-    while !msg.is_char_boundary(end) {
-        end -= 1;
-    }
-    let p = msg[..end].trim();
-    if p.is_empty() {
-        let mut e = msg.len().min(40);
-        while !msg.is_char_boundary(e) {
-            e -= 1;
+    let first = msg.lines().next().unwrap_or("");
+    let cut = first.find(": ").unwrap_or(first.len());
+    let mut out = String::new();
+    let mut in_digits = false;
+    for c in first[..cut].chars() {
+        if c.is_ascii_digit() {
+            if !in_digits {
+                out.push('#');
+            }
+            in_digits = true;
+        } else {
+            in_digits = false;
+            out.push(c);
         }
-        msg[..e].to_string()
-    } else {
-        p.to_string()
+        if out.len() >= 80 {
+            break;
+        }
     }
+    let out = out.trim().to_string();
+    if out.is_empty() { "<empty message>".to_string() } else { out }
 }
 
 static GLOBAL_SEQ: AtomicU64 = AtomicU64::new(0);
